@@ -376,3 +376,188 @@ Section Pivot.
              eapply srt_all_on_eq; [|exact ZE1]. intros k Hk. rewrite R2 by lia. apply Hoth; lia.
   Qed.
 End Pivot.
+
+Section PivotMain.
+  Context {K V : Type}.
+  Variable less : K -> K -> bool.
+  Hypothesis less_irrefl : forall x, less x x = false.
+  Hypothesis less_trans : forall x y z, less x y = true -> less y z = true -> less x z = true.
+  Notation ST := (srt_state K V).
+
+  (* pivot value p at lo; keys(lo,a) < p; keys[a,b) <= p; keys[b,c) ~ p; keys[c,hi) >= p *)
+  Definition srt_mid (ks : list K) (p : K) (lo hi a b c : Z) : Prop :=
+    srt_zget ks lo = Some p /\
+    srt_all_on (srt_ltp less p) ks (lo + 1) a /\
+    srt_all_on (srt_lep less p) ks a b /\
+    srt_all_on (srt_eqp less p) ks b c /\
+    srt_all_on (srt_gep less p) ks c hi.
+
+  Lemma srt_do_pivot_post lo hi (s : ST) mlo mhi s' :
+    0 <= lo -> 12 < hi - lo ->
+    srt_do_pivot less lo hi s = SOk ((mlo, mhi), s') ->
+    srt_pivot_post less (st_keys s') lo hi mlo mhi.
+  Proof.
+    intros Hlo Hwid E. unfold srt_do_pivot in E. cbv zeta in E.
+    set (m := (lo + hi) / 2) in *.
+    assert (Hm : 2 * m <= lo + hi < 2 * m + 2) by (unfold m; lia). clearbody m.
+    set (q := (hi - lo) / 4) in *.
+    assert (Hq : 4 * q <= hi - lo < 4 * q + 4) by (unfold q; lia). clearbody q.
+    apply srt_inv_bind in E. destruct E as (u0 & s0 & _ & E).
+    apply srt_inv_bind in E. destruct E as (u1 & s1 & _ & E).
+    (* choice of the pivot: p at lo, z at hi-1, p <= z *)
+    apply srt_inv_bind in E. destruct E as (u2 & s2 & E2 & E).
+    destruct (srt_median3_order less less_irrefl less_trans lo m (hi - 1) s1 u2 s2
+                ltac:(lia) ltac:(lia) ltac:(lia) E2) as (p & z & Hp & Hz & Lzp).
+    (* first scan *)
+    apply srt_inv_bind in E. destruct E as (a & s3 & E3 & E).
+    destruct (srt_scan_up_inv less _ _ _ _ _ _ _ _ (srt_cond_less_l less _ lo p Hp) eq_refl E3)
+      as (Hk3 & Ha & A3 & _).
+    (* main loop *)
+    apply srt_inv_bind in E. destruct E as ([b c] & s4 & E4 & E).
+    destruct (srt_part_loop_inv less less_irrefl less_trans p lo (hi - 1) a (Z.to_nat (hi - lo)) a (hi - 1) s3 b c s4)
+      as (Hbc & Hab & Hch & Out4 & ZL4 & ZG4); try lia; try exact E4.
+    { rewrite Hk3. exact Hp. }
+    { apply srt_all_on_empty. lia. }
+    { apply srt_all_on_empty. lia. }
+    subst c. rewrite Hk3 in Out4.
+    assert (Hp4 : srt_zget (st_keys s4) lo = Some p) by (rewrite Out4 by lia; exact Hp).
+    assert (Hz4 : srt_zget (st_keys s4) (hi - 1) = Some z) by (rewrite Out4 by lia; exact Hz).
+    assert (ZS4 : srt_all_on (srt_ltp less p) (st_keys s4) (lo + 1) a).
+    { eapply srt_all_on_eq; [|exact A3]. intros k Hk. apply Out4. lia. }
+    assert (GE4 : srt_all_on (srt_gep less p) (st_keys s4) b hi).
+    { replace hi with (hi - 1 + 1) by lia. eapply srt_all_on_snoc; [|exact Hz4|exact Lzp].
+      eapply srt_all_on_impl; [|exact ZG4]. apply srt_gtp_gep; assumption. }
+    (* duplicate check *)
+    apply srt_inv_bind in E. destruct E as ([[b2 c2] prot] & s5 & E5 & E).
+    assert (Mid : a <= b2 /\ b2 <= c2 /\ c2 <= hi /\ srt_mid (st_keys s5) p lo hi a b2 c2).
+    { destruct (negb (hi - b <? 5) && (hi - b <? q)) eqn:Ed.
+      2:{ apply srt_inv_ret in E5. destruct E5 as [E5 <-]. injection E5 as <- <- _.
+          split; [lia|]. split; [lia|]. split; [lia|].
+          split; [exact Hp4|]. split; [exact ZS4|]. split; [exact ZL4|]. split; [|exact GE4].
+          apply srt_all_on_empty. lia. }
+      apply andb_prop in Ed. destruct Ed as [Ed1 Ed2].
+      apply negb_true_iff in Ed1. apply Z.ltb_ge in Ed1. apply Z.ltb_lt in Ed2.
+      apply srt_inv_bind in E5. destruct E5 as (v0 & t0 & T0 & E5). apply srt_inv_tick in T0.
+      apply srt_inv_bind in E5. destruct E5 as (t1 & t1s & T1 & E5).
+      apply srt_inv_less in T1. rewrite T0 in T1. destruct T1 as (x & y & Hx & Hy & -> & Hk1 & _).
+      rewrite Hp4 in Hx. injection Hx as <-. rewrite Hz4 in Hy. injection Hy as <-.
+      apply srt_inv_bind in E5. destruct E5 as ([c3 dups] & t2s & T2 & E5).
+      assert (CD : b <= c3 <= b + 1 /\ srt_mid (st_keys t2s) p lo hi a b c3).
+      { destruct (less p z) eqn:Lpz; cbn [negb] in T2.
+        - apply srt_inv_ret in T2. destruct T2 as [T2 <-]. injection T2 as <- _. rewrite Hk1.
+          split; [lia|]. split; [exact Hp4|]. split; [exact ZS4|]. split; [exact ZL4|].
+          split; [apply srt_all_on_empty; lia|exact GE4].
+        - apply srt_inv_bind in T2. destruct T2 as (v1 & t3s & T3 & T2).
+          apply srt_inv_ret in T2. destruct T2 as [T2 <-]. injection T2 as <- _.
+          apply srt_inv_swap in T3. rewrite Hk1 in T3.
+          destruct T3 as (w & z' & Hwv & Hz' & Hnb & Hnh & Hoth).
+          rewrite Hz4 in Hz'. injection Hz' as <-.
+          assert (Gw : srt_gep less p w).
+          { apply srt_gtp_gep; try assumption. apply (ZG4 b w); [lia|exact Hwv]. }
+          split; [lia|]. split; [|split; [|split; [|split]]].
+          + rewrite Hoth by lia. exact Hp4.
+          + eapply srt_all_on_eq; [|exact ZS4]. intros k Hk. apply Hoth; lia.
+          + eapply srt_all_on_eq; [|exact ZL4]. intros k Hk. apply Hoth; lia.
+          + eapply srt_all_on_one; [exact Hnb|]. split; [exact Lpz|exact Lzp].
+          + eapply srt_all_on_upd with (j := hi - 1); [|exact Hnh|exact Gw|].
+            * intros k Hk Hne. apply Hoth; lia.
+            * eapply srt_all_on_sub; [| |exact GE4]; lia. }
+      destruct CD as (Hc3 & Pp & PS & PL & PE & PG).
+      apply srt_inv_bind in E5. destruct E5 as (t4 & t4s & T4 & E5).
+      apply srt_inv_less in T4. destruct T4 as (y1 & x & Hy1 & Hx & -> & Hk4 & _).
+      rewrite Pp in Hx. injection Hx as <-.
+      apply srt_inv_bind in E5. destruct E5 as ([b4 dups4] & t5s & T5 & E5).
+      apply srt_inv_ret in T5. destruct T5 as [T5 <-].
+      assert (BD : a <= b4 /\ b - 1 <= b4 <= b /\
+                   srt_all_on (srt_lep less p) (st_keys t2s) a b4 /\
+                   srt_all_on (srt_eqp less p) (st_keys t2s) b4 c3).
+      { destruct (less y1 p) eqn:L1; cbn [negb] in T5; injection T5 as <- _.
+        - split; [lia|]. split; [lia|]. split; assumption.
+        - assert (Hab1 : a <= b - 1).
+          { destruct (Z.le_gt_cases a (b - 1)) as [H|H]; [exact H|]. exfalso.
+            assert (Ly : srt_ltp less p y1) by (apply (PS (b - 1) y1); [lia|exact Hy1]).
+            unfold srt_ltp in Ly. congruence. }
+          split; [lia|]. split; [lia|]. split.
+          + eapply srt_all_on_sub; [| |exact PL]; lia.
+          + eapply srt_all_on_cons; [exact PE|exact Hy1|]. split; [|exact L1].
+            apply (PL (b - 1) y1); [lia|exact Hy1]. }
+      destruct BD as (Hab4 & Hb4 & PL4 & PE4).
+      apply srt_inv_bind in E5. destruct E5 as (t6 & t6s & T6 & E5).
+      apply srt_inv_less in T6. rewrite Hk4 in T6. destruct T6 as (v & x & Hv & Hx & -> & Hk6 & _).
+      rewrite Pp in Hx. injection Hx as <-.
+      apply srt_inv_bind in E5. destruct E5 as ([b6 dups6] & t7s & T7 & E5).
+      apply srt_inv_ret in E5. destruct E5 as [E5 <-]. injection E5 as <- <- _.
+      destruct (less v p) eqn:L3; cbn [negb] in T7.
+      - apply srt_inv_ret in T7. destruct T7 as [T7 <-]. injection T7 as <- _. rewrite Hk6.
+        split; [lia|]. split; [lia|]. split; [lia|].
+        split; [exact Pp|]. split; [exact PS|]. split; [exact PL4|]. split; [exact PE4|exact PG].
+      - apply srt_inv_bind in T7. destruct T7 as (v1 & t8s & T8 & T7).
+        apply srt_inv_ret in T7. destruct T7 as [T7 <-]. injection T7 as <- _.
+        apply srt_inv_swap in T8. rewrite Hk6 in T8.
+        destruct T8 as (v' & w & Hv' & Hwv & Hnm & Hnb & Hoth).
+        rewrite Hv in Hv'. injection Hv' as <-.
+        assert (Ham : a <= m).
+        { destruct (Z.le_gt_cases a m) as [H|H]; [exact H|]. exfalso.
+          assert (Ly : srt_ltp less p v) by (apply (PS m v); [lia|exact Hv]).
+          unfold srt_ltp in Ly. congruence. }
+        assert (Ev : srt_eqp less p v).
+        { split; [|exact L3]. apply (PL4 m v); [lia|exact Hv]. }
+        assert (Lw : srt_lep less p w) by (apply (PL4 (b4 - 1) w); [lia|exact Hwv]).
+        split; [lia|]. split; [lia|]. split; [lia|]. split; [|split; [|split; [|split]]].
+        + rewrite Hoth by lia. exact Pp.
+        + eapply srt_all_on_eq; [|exact PS]. intros k Hk. apply Hoth; lia.
+        + eapply srt_all_on_upd with (j := m); [|exact Hnm|exact Lw|].
+          * intros k Hk Hne. apply Hoth; lia.
+          * eapply srt_all_on_sub; [| |exact PL4]; lia.
+        + eapply srt_all_on_cons; [|exact Hnb|exact Ev].
+          eapply srt_all_on_eq; [|exact PE4]. intros k Hk. apply Hoth; lia.
+        + eapply srt_all_on_eq; [|exact PG]. intros k Hk. apply Hoth; lia. }
+    destruct Mid as (Hab2 & Hbc2 & Hc2 & Mp & MS & ML & ME & MG).
+    (* protection against many duplicates of the pivot *)
+    apply srt_inv_bind in E. destruct E as (r & s6 & E6 & E).
+    assert (Fin : lo < r /\ r <= c2 /\ srt_zget (st_keys s6) lo = Some p /\
+                  srt_all_on (srt_lep less p) (st_keys s6) (lo + 1) r /\
+                  srt_all_on (srt_eqp less p) (st_keys s6) r c2 /\
+                  srt_all_on (srt_gep less p) (st_keys s6) c2 hi).
+    { destruct prot.
+      - apply srt_inv_bind in E6. destruct E6 as (v0 & t0 & T0 & E6). apply srt_inv_tick in T0.
+        rewrite <- T0 in Mp, MS, ML, ME, MG.
+        destruct (srt_prot_loop_inv less less_irrefl less_trans p lo (Z.to_nat (hi - lo)) a b2 t0 r s6)
+          as (Hr & Out6 & RS & RE); try lia; try assumption.
+        split; [lia|]. split; [lia|]. split; [rewrite Out6 by lia; exact Mp|]. split; [|split].
+        + eapply srt_all_on_impl; [apply srt_ltp_lep; assumption|].
+          eapply srt_all_on_app; [|exact RS].
+          eapply srt_all_on_eq; [|exact MS]. intros k Hk. apply Out6; lia.
+        + eapply srt_all_on_app; [exact RE|].
+          eapply srt_all_on_eq; [|exact ME]. intros k Hk. apply Out6; lia.
+        + eapply srt_all_on_eq; [|exact MG]. intros k Hk. apply Out6; lia.
+      - apply srt_inv_ret in E6. destruct E6 as [<- <-].
+        split; [lia|]. split; [lia|]. split; [exact Mp|]. split; [|split; assumption].
+        eapply srt_all_on_app; [|exact ML].
+        eapply srt_all_on_impl; [apply srt_ltp_lep; assumption|exact MS]. }
+    destruct Fin as (Hr1 & Hr2 & Fp & FL & FE & FG).
+    (* the pivot goes between the zones *)
+    apply srt_inv_bind in E. destruct E as (u7 & s7 & E7 & E).
+    apply srt_inv_ret in E. destruct E as [E <-]. injection E as <- <-.
+    apply srt_inv_swap in E7. destruct E7 as (p' & w & Hp' & Hwv & Hnlo & Hnr & Hoth).
+    rewrite Fp in Hp'. injection Hp' as <-.
+    unfold srt_pivot_post. split; [lia|]. split; [lia|]. split; [lia|].
+    exists p. split; [|split].
+    - intros i x Hi Hx. change (srt_lep less p x).
+      destruct (Z.eq_dec i lo) as [->|Hne].
+      + rewrite Hnlo in Hx. injection Hx as <-. apply (FL (r - 1) w); [lia|exact Hwv].
+      + rewrite Hoth in Hx by lia. apply (FL i x); [lia|exact Hx].
+    - intros i x Hi Hx. change (srt_eqp less p x).
+      destruct (Z.eq_dec i (r - 1)) as [->|Hne].
+      + rewrite Hnr in Hx. injection Hx as <-. apply srt_eqp_p. exact less_irrefl.
+      + rewrite Hoth in Hx by lia. apply (FE i x); [lia|exact Hx].
+    - intros i x Hi Hx. change (srt_gep less p x).
+      rewrite Hoth in Hx by lia. apply (FG i x); [lia|exact Hx].
+  Qed.
+
+  (* doPivot_func returns a three-zone partition *)
+  Theorem dopivot_partition : srt_partition_ok (V:=V) less.
+  Proof.
+    intros a b s mlo mhi s' Ha Hw _ E. exact (srt_do_pivot_post a b s mlo mhi s' Ha Hw E).
+  Qed.
+End PivotMain.
